@@ -6,5 +6,6 @@
 //@include boxed_spec.rs
 //@include walk_lemma.rs
 //@include mb2_builder.rs
+//@include mb2_getters_sized.rs
 //@include mb2_ctors.rs
 fn main() {}
